@@ -136,6 +136,10 @@ def run_case(req):
                     gen.throw(RuntimeError("consumer failed"))
                 except (RuntimeError, StopIteration):
                     pass
+                else:
+                    # the per-member handler swallowed the exception and the generator went on to the next member: it is
+                    # still suspended, so its temp directory is legitimately alive until the consumer lets go of it
+                    gen.close()
         except Exception as e:  # noqa
             outcome = "raised:" + type(e).__name__
     finally:
